@@ -5,7 +5,7 @@
    fluent-syntax/src/parser/*.rs that is run against the real parser by ./check C01); the proofs
    are in Syntax/ParserTotal.v (with ParserSpec.v and ParserHelpers.v).  "Every Unicode string" is
    every byte string satisfying utf8_valid, which is what Rust's `str` guarantees.               *)
-From FluentV Require Import Base.Utf8 Syntax.ParserModel Syntax.ParserTotal.
+From FluentV Require Import Base.Bytes Base.Utf8 Syntax.ParserModel Syntax.ParserTotal Syntax.ParserConsts Gen.Extracted.
 
 (* "never panic": no str slice off a char boundary or out of range, no usize underflow, no
    unreachable!() — and this safety holds at EVERY fuel, i.e. for every prefix of the execution,
@@ -27,6 +27,25 @@ Proof. exact parse_runtime_total. Qed.
 (* the fuel that suffices (recursion depth + loop iterations along one call path) is linear *)
 Theorem C01_fuel_linear : forall bs, fuel_for bs = 8 * length bs + 16.
 Proof. exact fuel_linear. Qed.
+
+(* the byte classes used by the model are those written in the Rust source now (regenerated into
+   Gen/Extracted.v by tools/extract_consts.py on every run): pattern-continuation exclusions, junk
+   recovery start bytes, identifier and callee characters, trimmed whitespace, text stop bytes,
+   two-byte escapes, unicode escape lengths *)
+Theorem C01_byte_classes_from_source :
+  (forall b, is_byte_pattern_continuation b = negb (byte_in b PARSER_NOT_CONTINUATION)) /\
+  (forall b, (is_ascii_alphabetic b || N.eqb b 45 || N.eqb b 35) = (is_ascii_alphabetic b || byte_in b PARSER_ENTRY_START_EXTRA)) /\
+  (forall b, is_ident_char b = (is_ascii_alphanumeric b || byte_in b PARSER_IDENT_EXTRA)) /\
+  (forall name, is_callee name = forallb (fun c => is_ascii_uppercase c || is_ascii_digit c || byte_in c PARSER_CALLEE_EXTRA) name) /\
+  (forall b, matches_fluent_ws b = byte_in b FLUENT_WS) /\
+  (forall b, (N.eqb b c_lf || N.eqb b 123 || N.eqb b 125) = byte_in b PARSER_TEXT_STOP) /\
+  (forall c, (N.eqb c 92 || N.eqb c 123 || N.eqb c 34) = byte_in c PARSER_SIMPLE_ESCAPES) /\
+  PARSER_UNICODE_ESCAPE_LENGTHS = (4, 6).
+Proof.
+  repeat split; [exact continuation_from_source | exact entry_start_from_source | exact ident_char_from_source
+                | exact callee_from_source | exact fluent_ws_from_source | exact text_stop_from_source
+                | exact simple_escapes_from_source].
+Qed.
 
 (* non-vacuity witnesses *)
 
